@@ -4,7 +4,7 @@ import common
 
 LEAN_MODULES = ['OpusProps.C13']
 GEN = []
-SOURCES = ['celt/arch.h', 'celt/float_cast.h', 'celt/mathops.c', 'celt/mathops.h', 'src/opus_encoder.c',
+SOURCES = ['src/opus_private.h', 'celt/arch.h', 'celt/float_cast.h', 'celt/mathops.c', 'celt/mathops.h', 'src/opus_encoder.c',
            'src/opus_decoder.c', 'src/opus.c', 'src/opus_multistream_encoder.c', 'src/opus_multistream_decoder.c',
            'src/opus_projection_decoder.c', 'src/mapping_matrix.c', 'src/analysis.c', 'include/opus.h',
            'celt/x86/x86cpu.c']
@@ -20,7 +20,12 @@ UNPROVED = ['projection, relation to the FLOAT output (rest of design priority P
             'lsb_depth, analysis samples through the down-mix callback) and of the encoder state: this is the '
             'determinism property C12; here it is a structural fact of opus_encode_native\'s signature, and the S4 twin-'
             'encoder run checks its consequence (byte-identical packets and final ranges)']
-RULE = ('exhaustive: all 65536 int16 values through INT16TORES/INT16TOSIG, 256*x through INT24TORES/INT24TOSIG and '
+RULE = ('entry points: the real opus_encode / opus_encode24 / opus_encode_float and opus_decode / opus_decode24 / '
+        'opus_decode_float compiled from src/opus_encoder.c / src/opus_decoder.c with only the CALL of the shared core '
+        'redirected to a recorder: random rate, channels, st->lsb_depth 8..24, expert frame duration ARG/2.5..40 ms, buffer '
+        'sizes valid / invalid / longer than the coded frame, arbitrary int16 / int32 / float samples; decoder: packets of '
+        'six durations, PLC, FEC, buffers shorter / equal / longer than the packet, special float blocks. '
+        'exhaustive: all 65536 int16 values through INT16TORES/INT16TOSIG, 256*x through INT24TORES/INT24TOSIG and '
         '(float)x/32768 through FLOAT2RES/FLOAT2SIG (thorough: also (float)x*(1/32768.f) and x itself as a 24-bit sample); '
         'stratified/random (seeded): int32 values at rounding ties of the 24-bit mantissa and boundary values through '
         'INT24TORES/INT24TOSIG; float bit patterns (any pattern, audio range, subnormals, beyond int32 after scaling, '
@@ -67,6 +72,9 @@ def ties(ctx):
         t = common.run_tie('pcm-f2i16-arch%d' % a, [h, 'f2i16', str(ctx.seed * 8 + a), '500' if q else '20000'],
                            env={'OPUS_VERIF_ARCH_CAP': str(a)})
         out.append(t)
+    he = ctx.harness('c13_entry', ['c13_entry.c', 'c13_entry_dec.c'], variant='san')
+    out.append(common.run_tie('pcm-entry-enc', [he, 'enc', s, '1200' if q else '40000']))
+    out.append(common.run_tie('pcm-entry-dec', [he, 'dec', s, '3000' if q else '100000']))
     out.append(common.run_tie('pcm-proj', [h, 'projtie', s, '20000' if q else '800000']))
     return out
 
@@ -84,6 +92,17 @@ def classify(ctx, tie, mm):
         'inf': 'FLOAT2RES/FLOAT2SIG of this sample differs from the sample itself (resp. sample*32768 correctly rounded)',
         'out': 'RES2INT16/RES2INT24/RES2FLOAT of this float differs from saturate(round-half-even(32768*v)) / '
                'round-half-even(2^23*v) / v',
+        'enc16': 'opus_encode hands opus_encode_native a different argument tuple than the one proved identical across the '
+                 'three formats (encode_formats_agree): samples, frame size, analysis size, depth, down-mix or flags',
+        'enc24': 'opus_encode24 hands opus_encode_native a different argument tuple than the one proved identical across the '
+                 'three formats (encode_formats_agree): samples, frame size, analysis size, depth, down-mix or flags',
+        'encf': 'opus_encode_float hands opus_encode_native a different argument tuple than the one proved identical across '
+                'the three formats (encode_formats_agree): samples, frame size, analysis size, depth, down-mix or flags',
+        'dec16': 'opus_decode: soft_clip flag / frame size handed to opus_decode_native or the conversion applied to its output '
+                 'differ from out16_spec (soft clip on, then saturate(round-half-even(32768*v)))',
+        'dec24': 'opus_decode24: soft_clip flag / frame size handed to opus_decode_native or the conversion applied to its '
+                 'output differ from out24_spec (no soft clip, round-half-even(2^23*v))',
+        'decf': 'opus_decode_float: flags handed to opus_decode_native differ (no soft clip, output written in place)',
         'proj': 'mapping_matrix_multiply_channel_out_short (projection 16-bit output) differs from the saturating sum of the '
                 'rounded Q15 products proved never to leave the int16 range',
         'f2i16': 'celt_float2int16 (the 16-bit output conversion of opus_decode) differs from '
@@ -203,11 +222,26 @@ def replay(ctx, obj):
     h = _harness(ctx)
     items = [obj] + list(obj.get('other_witnesses', []))
     lines = [w.get('input', '') for w in items if w.get('input', '').startswith('pcm ')]
+    entry = [l for l in lines if l.split(' ')[1] in ('enc16', 'enc24', 'encf', 'dec16', 'dec24', 'decf')]
+    lines = [l for l in lines if l not in entry]
+    if entry:
+        # entry-point lines carry random samples generated by the harness; re-run those ties as a whole
+        he = ctx.harness('c13_entry', ['c13_entry.c', 'c13_entry_dec.c'], variant='san')
+        common.lake_build(['opusmodel'])
+        for mode, n in (('enc', '1200'), ('dec', '3000')):
+            t = common.run_tie('pcm-entry-' + mode, [he, mode, str(obj.get('seed', 1)), n])
+            print('entry-point tie %s: %d cases, %d mismatches %s' % (mode, t.cases, t.n_mismatch, t.error or ''))
+            for mm in t.mismatches[:2]:
+                print('  input: %s\n  impl:  %s\n  model: %s' % (mm.get('input', '')[:200], mm.get('impl', '')[:200], mm.get('model', '')[:200]))
+            if t.n_mismatch or t.error:
+                return_bad = True
+                print('VIOLATION property=C13 replay reproduced (entry-point tie %s)' % mode)
+                return 1
     cases = [re.match(r'c13_pcm (\w+) (\d+): case (\d+)', w.get('input', '')) for w in items]
     cases = [m for m in cases if m]
     bad = 0
     if lines:
-        lines = [' '.join(l.split(' ')[:4]) for l in lines]
+        lines = [' '.join(l.split(' ')[:6]) for l in lines]
         common.lake_build(['opusmodel'])
         env = dict(ENV)
         m = re.search(r'arch(\d)', obj.get('suite', ''))
